@@ -45,6 +45,9 @@ public:
   int set_cpu(const char *name);
 
   int assemble();
+#ifdef NAKEN_ASM_VERIF
+  int assemble_nv_impl();
+#endif
   int directive(char *token);
   int link_file(const char *filename);
   int link();
